@@ -12,6 +12,7 @@ classify / extract operations, and every inner matcher of the model's alphabet.
                            matchers *as implemented* (capturing callbacks, `addErrback`) refine their declaration
 * `C20_trichotomy`, `C20_noResult_iff`, `C20_succeeded_iff`, `C20_failed_iff` : verdicts
 * `C20_extract`          : `extract_result`
+* `C20_rematch_*`      : what a second (third, …) matcher on the same Deferred sees
 * `C20_passive_*`, `C20_invisible` : matching never fires, changes nothing but a handled failure, and is invisible
                            to every later operation
 * `C20_sync_runner*`     : `SynchronousDeferredRunTest._run_user`
@@ -160,6 +161,79 @@ theorem C20_passive_failure (m : Matcher) (d : D) (e : Nat) (h : d.st = .fired (
   | noResult => rw [matchOp_fail_noResult d e h]; rfl
   | succeeded vm => rw [matchOp_fail_succeeded vm d e h]; rfl
   | failed fm => rw [matchOp_fail_failed fm d e h]; rfl
+
+/-! ## repetition: what a second matcher sees
+
+The statement's "leaves an unfired Deferred and a successful result intact" and "a failure inspected … is marked
+handled" are claims about *one* `match`; read under repetition they say what the next matcher on the same Deferred
+sees.  These theorems make that explicit for every pair of matchers and every state. -/
+
+/-- the result state after `matcher.match(deferred)`, for every matcher and state: unchanged, except that a failure
+inspected by `succeeded` / `failed` has become a successful `None` (the swallowing errback) -/
+theorem matchOp_st (m : Matcher) (d : D) :
+    (matchOp m d).1.st = (match d.st, m with
+      | .fired (.fail e), .noResult => .fired (.fail e)
+      | .fired (.fail _), _ => .fired (.ok .none)
+      | s, _ => s) := by
+  cases hs : d.st with
+  | unfired => rw [matchOp_pending m d (by simp [hs])]; simp [hs]
+  | paused => rw [matchOp_pending m d (by simp [hs])]; simp [hs]
+  | fired r =>
+    cases r with
+    | ok v => rw [matchOp_ok m d v hs]
+    | fail e =>
+      cases m with
+      | noResult => rw [matchOp_fail_noResult d e hs]
+      | succeeded vm => rw [matchOp_fail_succeeded vm d e hs]
+      | failed fm => rw [matchOp_fail_failed fm d e hs]
+
+/-- C20 (repetition, intact): unless the first matcher inspected a failure, a second matcher — any matcher — gives
+exactly the verdict it would have given on the untouched Deferred. -/
+theorem C20_rematch_stable (m m' : Matcher) (d : D)
+    (h : (∀ e, d.st ≠ .fired (.fail e)) ∨ m = .noResult) :
+    (matchOp m' (matchOp m d).1).2 = (matchOp m' d).2 := by
+  rw [matchOp_verdict, matchOp_verdict, matchOp_st]
+  cases hs : d.st with
+  | unfired => rfl
+  | paused => rfl
+  | fired r =>
+    cases r with
+    | ok v => rfl
+    | fail e =>
+      rcases h with h | h
+      · exact absurd hs (h e)
+      · subst h; rfl
+
+/-- C20 (repetition, handled): after `succeeded(m)` or `failed(m)` inspected a failure, every later matcher sees a
+Deferred that fired with the value `None` — so `failed(Always())` matches a failed Deferred once, not twice. -/
+theorem C20_rematch_after_handled (m m' : Matcher) (d : D) (e : Nat)
+    (hs : d.st = .fired (.fail e)) (hm : m ≠ .noResult) :
+    (matchOp m' (matchOp m d).1).2 = declVerdict m' (.fired (.ok .none)) := by
+  rw [matchOp_verdict, matchOp_st, hs]
+  cases m with
+  | noResult => exact absurd rfl hm
+  | succeeded vm => rfl
+  | failed fm => rfl
+
+/-- C20 (repetition, trichotomy again): whatever was matched before, in whatever number, exactly one of the three
+classes matches afterwards, and none of it fired the Deferred. -/
+theorem C20_rematch_trichotomy (ms : List Matcher) (d : D) :
+    let d' := ms.foldl (fun d m => (matchOp m d).1) d
+    exactlyOne (matchOp .noResult d').2 (matchOp (.succeeded .always) d').2 (matchOp (.failed .always) d').2 = true
+      ∧ d'.called = d.called := by
+  induction ms generalizing d with
+  | nil => exact ⟨C20_trichotomy d, rfl⟩
+  | cons m ms ih =>
+    have := ih (matchOp m d).1
+    simp only [List.foldl_cons]
+    exact ⟨this.1, this.2.trans (C20_passive_never_fires m d)⟩
+
+-- non-vacuity: a failed Deferred, `failed(Always())` twice: matches, then does not
+example : (matchOp (.failed .always) ⟨.fired (.fail 1), [], []⟩).2 = true
+    ∧ (matchOp (.failed .always) (matchOp (.failed .always) ⟨.fired (.fail 1), [], []⟩).1).2 = false
+    ∧ (matchOp (.succeeded .always) (matchOp (.failed .always) ⟨.fired (.fail 1), [], []⟩).1).2 = true := by decide
+-- and `has_no_result()` in between changes nothing
+example : (matchOp (.failed .always) (matchOp .noResult ⟨.fired (.fail 1), [], []⟩).1).2 = true := by decide
 
 /-! ## simulation: the implementation's extra callbacks are invisible -/
 
